@@ -823,8 +823,12 @@ func c17FinalizeLayouts(rep *Report, seed uint64, nTrees int) {
 	}
 	// the escrow also holds 4 * 2^64 of the first denom (minted to it directly): withdrawals whose
 	// amounts use the whole 64-bit field of the leaf format must be payable
-	e.Fund(ophosttypes.BridgeAddress(1), sdk.NewCoins(sdk.NewCoin(sc.Denoms[0], math.NewIntFromBigInt(new(big.Int).Lsh(big.NewInt(1), 66)))))
-	setupNote := fmt.Sprintf("// before the history: 2^66 %s minted to the escrow of bridge 1", sc.Denoms[0])
+	var whale sdk.Coins
+	for _, d := range sc.Denoms {
+		whale = append(whale, sdk.NewCoin(d, math.NewIntFromBigInt(new(big.Int).Lsh(big.NewInt(1), 67))))
+	}
+	e.Fund(ophosttypes.BridgeAddress(1), whale.Sort())
+	setupNote := "// before the history: 2^67 of every denom minted to the escrow of bridge 1 (a whale escrow: no claim below is refused for lack of funds)"
 	l2 := uint64(0)
 	for t := 0; t < nTrees+1; t++ {
 		n := []int{1, 2, 3, 5, 8, 13, 21}[(t+int(seed))%7]
@@ -854,9 +858,15 @@ func c17FinalizeLayouts(rep *Report, seed uint64, nTrees int) {
 	nth := 0
 	for _, pt := range sc.Trees {
 		for i := range pt.Tree.Ws {
-			for variant := 0; variant < 2; variant++ {
+			for variant := 0; variant < 4; variant++ { // 2: amount + k*2^64, 3: amount + 2^63 / 2^32
 				nth++ // 0: the valid claim, 1: one proof element corrupted (or amount changed for single-leaf trees)
 				op := sc.Claim(pt, i, e.User(4).Str)
+				if variant == 2 { // congruent to the committed amount modulo 2^64: does not fit the 8-byte field of the leaf
+					op.Amt = new(big.Int).Add(op.Amt, new(big.Int).Mul(big.NewInt(int64(1+nth%3)), new(big.Int).Lsh(big.NewInt(1), 64)))
+				}
+				if variant == 3 { // congruent modulo 2^63 / 2^32: another leaf
+					op.Amt = new(big.Int).Add(op.Amt, new(big.Int).Lsh(big.NewInt(1), []uint{63, 32}[nth%2]))
+				}
 				if variant == 1 {
 					if len(op.Proofs) > 0 {
 						j := sc.R.Intn(len(op.Proofs))
@@ -888,6 +898,9 @@ func c17FinalizeLayouts(rep *Report, seed uint64, nTrees int) {
 						what := "a withdrawal committed with the documented leaf format (amount " + op.Amt.String() + ") and claimed with an honest proof is rejected"
 						if variant == 1 {
 							what = "a claim with a corrupted proof is accepted"
+						}
+						if variant >= 2 {
+							what = "a claim of amount " + op.Amt.String() + " with the proof of the committed leaf of amount " + pt.Tree.Ws[i].Amt.String() + " is accepted (the documented leaf has an 8-byte amount; the independent verifier refuses it)"
 						}
 						rep.Violate(Violation{Case: nth, Step: k, What: fmt.Sprintf("%s (layout %s): OK=%v %s", what, layoutNames[k], r.OK, r.Err), Sig: "C17:finalize-verdict",
 							Ops: append(append([]string{}, setupOps...), human)})
